@@ -2727,7 +2727,7 @@ class SEVM:
 
             if is_bv(create_hexcode):
                 create_hexcode = simplify(create_hexcode)
-            else:
+            elif create_hexcode:  # empty init code stays b"" (there is no zero-width bitvector)
                 create_hexcode = bytes_to_bv_value(create_hexcode)
 
             code_hash = ex.sha3_data(create_hexcode)
